@@ -301,7 +301,9 @@ def run(ctx):
                 cases.append((cid + ".b", "b", xml))
                 if k == "typeerr":
                     cases.append((cid + ".p", "p", xml))
-                if k in XTA_FAULTS and balanced(t2) and not re.search(r"[;{}]|/\*|//", t2) and base.get("s%d.t" % si, {}).get("rc") == "0" and not base["s%d.t" % si]["E"]:
+                both = lab[1] != "edge" and m["templates"][lab[0]]["locs"][lab[2]]["inv"] is not None and m["templates"][lab[0]]["locs"][lab[2]]["exprate"] is not None
+                # (in the textual format the invariant and the rate of a location are ONE production `name { inv ; rate }`: no block of its own)
+                if k in XTA_FAULTS and not both and balanced(t2) and not re.search(r"[;{}]|/\*|//", t2) and base.get("s%d.t" % si, {}).get("rc") == "0" and not base["s%d.t" % si]["E"]:
                     cases.append((cid + ".t", "t", G.to_xta(with_label(m, lab, t2))))
     # declaration blocks: truncation and token deletion inside declaration i
     dmeta = {}
@@ -450,6 +452,9 @@ def run(ctx):
             syn = any(p_ == lpath and "syntax_error" in msg_ for p_, msg_ in fb_["E"])
             k = ("leak:frame:" if syn else "leak:frame-without-syntax-error:") + shape if shape else ("diag:%s:%s" % (meta[cid][1][3], diagkey[cid]) if cid in diagkey else
                                                      "disturbance:%s:%s" % (meta[cid][1][3], meta[cid][2]))
+            if not shape and cid not in diagkey and lab_[3] == "exprate" and re.match(r"field %s\.inv changed" % re.escape(lab_[4].rsplit(".", 1)[0]), what):
+                # the operand a faulty rate label left on the builder's expression stack is taken for the invariant of the same location
+                k = "leak:fragment:rate-fault-replaces-invariant"
             by_shape.setdefault(k, []).append((cid, what))
     cov["correspondence_disagreements"] = len(disturbed)
     cov["disturbances_by_shape"] = {k: len(v) for k, v in by_shape.items()}
